@@ -53,6 +53,7 @@ class Spliced:
         self.anchors = []      # dict(file, fn, line)
         self.repo_lines = 0
         self.body_starts = []  # (generated line number of the line holding a hosted body's opening brace, label)
+        self.lost = []         # dict(label, reason): labelled regions whose hosted text could not be produced (stubbed, undecided)
 
     def emit(self, text, origin):
         for k, ln in enumerate(text.split('\n')):
@@ -179,110 +180,126 @@ def splice(tmpl_path, repo_root):
                     ats.append((None, 'start', buf))
                 else:
                     break
-            if 'const' in a:
-                # a const initialiser hosted as a function body (R2), so that the rewrite directives apply to it
-                c = find_const(repo_text(a['file']), a['const'], a.get('ctx'), int(a.get('index', 0)))
-                f = dict(body='{\n' + c['expr'] + '\n}', line=c['line'] - 1, sig_line=c['line'], sig='const ' + a['const'])
-                a['fn'] = 'const ' + a['const']
-                out.rewrites.append('R2 const %s (%s:%d) hosted as fn body' % (a['const'], a['file'], c['line']))
-            else:
-                f = find_fn(repo_text(a['file']), a['fn'], a.get('ctx'), int(a.get('index', 0)))
-            if 'sig' in a:
-                if norm(strip_lifetimes(a['sig'])) != norm(strip_lifetimes(f['sig'])):
-                    raise LostAnchor('signature of %s in %s changed: expected `%s`, found `%s`' % (a['fn'], a['file'], a['sig'], norm(f['sig'])))
-            body = f['body']
-            out.anchors.append(dict(file=a['file'], item=('fn ' + a['fn']) if 'const' not in a else a['fn'], line=f['sig_line'], sig=norm(f['sig'])))
-            # loop clauses (insert from the last loop backwards so positions stay valid)
-            if loops:
-                found = find_loops(body)
-                for n in sorted(loops, reverse=True):
-                    if n > len(found):
-                        raise LostAnchor('loop %d of %s not found (body has %d loops)' % (n, a['fn'], len(found)))
-                    _, bpos, _ = found[n - 1]
-                    clause = '\n' + '\n'.join('/*@c*/ ' + c for c in loops[n]) + '\n'
-                    body = body[:bpos] + clause + body[bpos:]
-            for frm, to, optional in subs:
-                if hasattr(frm, 'pattern'):
-                    body, nsub = frm.subn(to, body)
-                    if nsub == 0 and optional:
-                        continue
-                    if nsub == 0:
-                        raise LostAnchor('rewrite pattern `%s` not found in %s' % (frm.pattern, a['fn']))
-                    out.rewrites.append('%s:%s /%s/ -> `%s` (%d places)' % (a['file'], a['fn'], frm.pattern, to, nsub))
-                    continue
-                if frm not in body and optional:
-                    continue  # a constant-to-function rewrite (R2) with nothing to rewrite
-                if frm not in body:
-                    raise LostAnchor('rewrite source `%s` not found in %s' % (frm, a['fn']))
-                body = body.replace(frm, to)
-                out.rewrites.append('%s:%s `%s` -> `%s`' % (a['file'], a['fn'], frm, to))
-            for fb in forbids:
-                if fb.search(body):
-                    raise LostAnchor('construct `%s` that the unit cannot host is still present in %s after the rewrites' % (fb.pattern, a['fn']))
-            blines = body.split('\n')
-            # map body lines to repo lines; inserted clause lines (marked) map to the template
-            repo_ln = f['line']
-            marks = []
-            for bl in blines:
-                if bl.startswith('/*@c*/ '):
-                    marks.append(None)
+            def host_body():
+                if 'const' in a:
+                    # a const initialiser hosted as a function body (R2), so that the rewrite directives apply to it
+                    c = find_const(repo_text(a['file']), a['const'], a.get('ctx'), int(a.get('index', 0)))
+                    f = dict(body='{\n' + c['expr'] + '\n}', line=c['line'] - 1, sig_line=c['line'], sig='const ' + a['const'])
+                    a['fn'] = 'const ' + a['const']
+                    out.rewrites.append('R2 const %s (%s:%d) hosted as fn body' % (a['const'], a['file'], c['line']))
                 else:
-                    marks.append(repo_ln)
-                    repo_ln += 1
-            # the line before an inserted clause got split; fix numbering: a clause block splits one repo line in two
-            # (header part, `{` part) -- both belong to the same repo line.
-            fixed = []
-            repo_ln = f['line']
-            k = 0
-            while k < len(blines):
-                if blines[k].startswith('/*@c*/ '):
-                    fixed.append(('tmpl', tmpl_line))
-                    k += 1
-                    if k < len(blines) and not blines[k].startswith('/*@c*/ '):
-                        # continuation of the split line
-                        fixed.append(('repo', a['file'], repo_ln - 1))
+                    f = find_fn(repo_text(a['file']), a['fn'], a.get('ctx'), int(a.get('index', 0)))
+                if 'sig' in a:
+                    if norm(strip_lifetimes(a['sig'])) != norm(strip_lifetimes(f['sig'])):
+                        raise LostAnchor('signature of %s in %s changed: expected `%s`, found `%s`' % (a['fn'], a['file'], a['sig'], norm(f['sig'])))
+                body = f['body']
+                out.anchors.append(dict(file=a['file'], item=('fn ' + a['fn']) if 'const' not in a else a['fn'], line=f['sig_line'], sig=norm(f['sig'])))
+                # loop clauses (insert from the last loop backwards so positions stay valid)
+                if loops:
+                    found = find_loops(body)
+                    for n in sorted(loops, reverse=True):
+                        if n > len(found):
+                            raise LostAnchor('loop %d of %s not found (body has %d loops)' % (n, a['fn'], len(found)))
+                        _, bpos, _ = found[n - 1]
+                        clause = '\n' + '\n'.join('/*@c*/ ' + c for c in loops[n]) + '\n'
+                        body = body[:bpos] + clause + body[bpos:]
+                for frm, to, optional in subs:
+                    if hasattr(frm, 'pattern'):
+                        body, nsub = frm.subn(to, body)
+                        if nsub == 0 and optional:
+                            continue
+                        if nsub == 0:
+                            raise LostAnchor('rewrite pattern `%s` not found in %s' % (frm.pattern, a['fn']))
+                        out.rewrites.append('%s:%s /%s/ -> `%s` (%d places)' % (a['file'], a['fn'], frm.pattern, to, nsub))
+                        continue
+                    if frm not in body and optional:
+                        continue  # a constant-to-function rewrite (R2) with nothing to rewrite
+                    if frm not in body:
+                        raise LostAnchor('rewrite source `%s` not found in %s' % (frm, a['fn']))
+                    body = body.replace(frm, to)
+                    out.rewrites.append('%s:%s `%s` -> `%s`' % (a['file'], a['fn'], frm, to))
+                for fb in forbids:
+                    if fb.search(body):
+                        raise LostAnchor('construct `%s` that the unit cannot host is still present in %s after the rewrites' % (fb.pattern, a['fn']))
+                blines = body.split('\n')
+                # map body lines to repo lines; inserted clause lines (marked) map to the template
+                repo_ln = f['line']
+                marks = []
+                for bl in blines:
+                    if bl.startswith('/*@c*/ '):
+                        marks.append(None)
+                    else:
+                        marks.append(repo_ln)
+                        repo_ln += 1
+                # the line before an inserted clause got split; fix numbering: a clause block splits one repo line in two
+                # (header part, `{` part) -- both belong to the same repo line.
+                fixed = []
+                repo_ln = f['line']
+                k = 0
+                while k < len(blines):
+                    if blines[k].startswith('/*@c*/ '):
+                        fixed.append(('tmpl', tmpl_line))
                         k += 1
-                    continue
-                fixed.append(('repo', a['file'], repo_ln))
-                repo_ln += 1
-                k += 1
-            blines = [b[7:] if b.startswith('/*@c*/ ') else b for b in blines]
-            # AT insertions
-            for pat, where, buf in ats:
-                if where == 'start':
-                    # right after the opening brace of the body (line 0 holds `{`)
-                    first = blines[0]
-                    bpos = first.index('{') + 1
-                    rest = first[bpos:]
-                    blines[0] = first[:bpos]
-                    ins = list(buf) + ([rest] if rest.strip() else [])
-                    blines[1:1] = ins
-                    fixed[1:1] = [('tmpl', tmpl_line)] * len(buf) + ([fixed[0]] if rest.strip() else [])
-                    continue
-                idx = None
-                nth = 1
-                if ':' in where:
-                    where, nth_s = where.split(':')
-                    nth = int(nth_s)
-                for k, bl in enumerate(blines):
-                    if fixed[k][0] == 'repo' and norm(pat) in norm(bl):
-                        nth -= 1
-                        if nth == 0:
-                            idx = k
-                            break
-                if idx is None:
-                    raise LostAnchor('hint anchor `%s` not found in %s' % (pat, a['fn']))
-                at = idx if where == 'before' else idx + 1
-                blines[at:at] = buf
-                fixed[at:at] = [('tmpl', tmpl_line)] * len(buf)
-            out.body_starts.append((len(out.lines) + 1, cur['label'] if cur else a['fn']))
-            for bl, org in zip(blines, fixed):
-                out.lines.append(bl)
-                out.origin.append(org)
-                if org[0] == 'repo':
-                    out.repo_lines += 1
+                        if k < len(blines) and not blines[k].startswith('/*@c*/ '):
+                            # continuation of the split line
+                            fixed.append(('repo', a['file'], repo_ln - 1))
+                            k += 1
+                        continue
+                    fixed.append(('repo', a['file'], repo_ln))
+                    repo_ln += 1
+                    k += 1
+                blines = [b[7:] if b.startswith('/*@c*/ ') else b for b in blines]
+                # AT insertions
+                for pat, where, buf in ats:
+                    if where == 'start':
+                        # right after the opening brace of the body (line 0 holds `{`)
+                        first = blines[0]
+                        bpos = first.index('{') + 1
+                        rest = first[bpos:]
+                        blines[0] = first[:bpos]
+                        ins = list(buf) + ([rest] if rest.strip() else [])
+                        blines[1:1] = ins
+                        fixed[1:1] = [('tmpl', tmpl_line)] * len(buf) + ([fixed[0]] if rest.strip() else [])
+                        continue
+                    idx = None
+                    nth = 1
+                    if ':' in where:
+                        where, nth_s = where.split(':')
+                        nth = int(nth_s)
+                    for k, bl in enumerate(blines):
+                        if fixed[k][0] == 'repo' and norm(pat) in norm(bl):
+                            nth -= 1
+                            if nth == 0:
+                                idx = k
+                                break
+                    if idx is None:
+                        raise LostAnchor('hint anchor `%s` not found in %s' % (pat, a['fn']))
+                    at = idx if where == 'before' else idx + 1
+                    blines[at:at] = buf
+                    fixed[at:at] = [('tmpl', tmpl_line)] * len(buf)
+                out.body_starts.append((len(out.lines) + 1, cur['label'] if cur else a['fn']))
+                for bl, org in zip(blines, fixed):
+                    out.lines.append(bl)
+                    out.origin.append(org)
+                    if org[0] == 'repo':
+                        out.repo_lines += 1
+            try:
+                host_body()
+            except LostAnchor as e:
+                if not cur:
+                    raise
+                # the hosted text of this labelled function cannot be produced: stub its body (the contract stays, so callers
+                # are still checked against it) and report the label as undecided -- never as a violation
+                out.lost.append(dict(label=cur['label'], reason=str(e)))
+                out.emit('    { /*lost-anchor stub*/ proof { assume(false); } vstd::pervasive::unreached() }', ('tmpl', tmpl_line))
         else:
-            out.emit(inline(raw, i + 1), ('tmpl', i + 1))
+            try:
+                out.emit(inline(raw, i + 1), ('tmpl', i + 1))
+            except LostAnchor as e:
+                if not cur:
+                    raise
+                out.lost.append(dict(label=cur['label'], reason=str(e)))
+                out.emit(re.sub(r'/\*@(EXPR|ARM) .*?@\*/', '/*lost-anchor stub*/ proof { assume(false); } vstd::pervasive::unreached()', raw), ('tmpl', i + 1))
             i += 1
     if cur:
         cur['end'] = len(out.lines)
@@ -294,4 +311,4 @@ def write_unit(sp, out_rs):
         f.write('\n'.join(sp.lines) + '\n')
     with open(out_rs + '.map.json', 'w') as f:
         json.dump(dict(origin=sp.origin, regions=sp.regions, rewrites=sp.rewrites, anchors=sp.anchors,
-                       repo_lines=sp.repo_lines), f)
+                       repo_lines=sp.repo_lines, lost=sp.lost), f)
